@@ -117,6 +117,14 @@ def check(run, repo, world):
                 exists = cmd_cls.lookup(f.attr) is not None
                 argok = len(c.args) == 1 and _frame_arg_ok(
                     world, owner.mod, fn, c.args[0])
+                if cq.startswith(ATX) and exists and f.attr == "response" \
+                        and len(c.args) == 1 and isinstance(
+                            c.args[0], ast.Name):
+                    # the hat's line protocol: which *paths* bring a raw
+                    # text line to this call is decided per path, so that
+                    # one such path (a known finding) does not hide another
+                    _atx_answer_arg(run, world, folder, mod, Q, fn, c, cv)
+                    continue
                 run.ob("R-RSITE", "%s#%s.%s" % (Q, cv, f.attr),
                        exists and f.attr == "response" and argok,
                        "`%s` - %s" % (
@@ -1322,3 +1330,123 @@ def _check_sequence_answers(run, repo, world):
     run.floor("generator send sites in run_sequence", n_sites, 2)
     # (the legacy synchronous hasseb driver, dali/driver/hasseb.py, is not
     # among the drivers C16 names; its run_sequence has no such reset)
+
+
+def _noquery_prefixes(world, folder):
+    """Line prefixes 'h' + address byte (hex) of the 16-bit special
+    commands that expect no answer, from the command table."""
+    from .. import cmdtable
+    rx = cmdtable.registries(world, folder)
+    out = set()
+    for r in cmdtable.extract(world, folder, rx):
+        if r.family == "_SpecialCommand" and isinstance(r.cmdval, int) \
+                and r.answer is None:
+            out.add("h%02X" % r.cmdval)
+    return out
+
+
+def _atx_answer_arg(run, world, folder, mod, Q, fn, call, cv):
+    """ATX hat: what `command.response(<local>)` is given, per path.  The
+    local holds a raw text line after `read_line()` and a frame / None after
+    `extract()`; a raw line makes Response.__init__ raise TypeError.  Two
+    obligations: the path that breaks out of the read loop on an 'X' line,
+    and every other path."""
+    from ..cfg import forward_worlds, explicit_raise_only
+    from ..seq import cond_edge_transfer, kill_conds_on_assign, assigned_names
+    arg = call.args[0].id
+    cfg = CFG(fn, may_raise=explicit_raise_only, name=Q)
+
+    def kind_of(v, w):
+        if isinstance(v, ast.Constant) and v.value is None:
+            return "none"
+        if isinstance(v, ast.Call) and isinstance(v.func, ast.Attribute):
+            if v.func.attr == "read_line":
+                return "raw"
+            if v.func.attr == "extract":
+                return "frame"
+        if isinstance(v, ast.Call):
+            k = unparse(v.func).split(".")[-1]
+            if k in ("BackwardFrame", "BackwardFrameError"):
+                return "frame"
+        if isinstance(v, ast.Name):
+            for f in w:
+                if f[0] == "kind" and f[1] == v.id:
+                    return f[2]
+        return "other"
+
+    def tr(node, w):
+        w = kill_conds_on_assign(node, w)
+        a = node.ast
+        if node.kind == "stmt" and a is not None:
+            names = assigned_names(a)
+            if names:
+                new = None
+                if isinstance(a, ast.Assign) and len(a.targets) == 1 and \
+                        isinstance(a.targets[0], ast.Name):
+                    new = ("kind", a.targets[0].id, kind_of(a.value, w))
+                w = frozenset(f for f in w if not (
+                    f[0] == "kind" and f[1] in names))
+                if new is not None:
+                    w = w | {new}
+        return w
+    W = forward_worlds(cfg, tr, cond_edge_transfer(), max_worlds=40000)
+    node = None
+    for n in cfg.reachable:
+        if n.ast is not None and n.kind in ("stmt", "test") and any(
+                x is call for x in ast.walk(n.ast)):
+            node = n
+    if node is None:
+        raise AnalysisError("%s: the response construction is not in the "
+                            "CFG" % Q)
+    noq = _noquery_prefixes(world, folder)
+
+    def only_nonqueries(w):
+        """the path has established that the line sent starts with the
+        prefix of a command that expects no answer (the hat's special
+        handling of the search-address commands): `command.is_query` is
+        false there, whatever the test says"""
+        for f in w:
+            if f[0] != "cond" or f[2] is not True or " in " not in f[1]:
+                continue
+            try:
+                t_ = ast.parse(f[1], mode="eval").body
+            except SyntaxError:
+                continue
+            if isinstance(t_, ast.Compare) and isinstance(
+                    t_.ops[0], ast.In) and isinstance(
+                        t_.comparators[0], (ast.List, ast.Tuple, ast.Set)):
+                vals = [x.value for x in t_.comparators[0].elts
+                        if isinstance(x, ast.Constant)]
+                if vals and len(vals) == len(
+                        t_.comparators[0].elts) and all(
+                            isinstance(v, str) and v in noq for v in vals):
+                    return True
+        return False
+    after_x, other = [], []
+    for w in W.at(node):
+        if only_nonqueries(w) and _query_of(w, cv) is True:
+            continue
+        k = [f[2] for f in w if f[0] == "kind" and f[1] == arg]
+        if not k or k[0] != "raw":
+            if k and k[0] == "other":
+                other.append(w)
+            continue
+        is_x = any(f[0] == "cond" and f[2] is True and
+                   (arg + "[0]") in f[1] and "'X'" in f[1] and
+                   " == " in f[1] for f in w)
+        (after_x if is_x else other).append(w)
+
+    def show(ws):
+        return " -> ".join("L%s" % x.lineno for x in W.trace(
+            node, ws[0])[-8:] if x.lineno) if ws else ""
+    run.ob("R-RSITE", "%s#%s.response" % (Q, cv), not after_x,
+           "`%s` - argument is not None / BackwardFrame / "
+           "BackwardFrameError" % unparse(call)[:70], where(mod, call),
+           sample={"rule": "R-RSITE", "site": unparse(call)[:80],
+                   "function": Q, "paths": "after an 'X' line"})
+    run.ob("R-RSITE", "%s#%s.response[other paths]" % (Q, cv), not other,
+           "`%s` is given a raw text line (or something that is neither a "
+           "frame nor None) on a path other than the break on an 'X' line "
+           "(%s): Response.__init__ raises TypeError where the command's "
+           "response should be returned" % (unparse(call)[:60], show(other)),
+           where(mod, call))
